@@ -2,12 +2,16 @@
 Proofs/RL: the run-length encoded vector (`rl_vector.rs`, `rl_vector/index.rs`).
  1. the variable-length codec on unit lists          (`encodeUnits`, `decodeUnits`)
  2. the codec lifted to `RL.decode`
- 3. `SampleIndex.parameters` arithmetic, defect F8
- 4. `SampleIndex.range` contract, `SampleIndex.new` establishes it
+ 3. `SampleIndex.parameters` arithmetic (repaired: no condition on the universe size); defect F8 of the
+    code as first written (`parametersOld`)
+ 4. `SampleIndex.range` contract, `SampleIndex.new` establishes it for non-decreasing values (repaired,
+    F10; the code as first written, `consumeOld`, asserted strictly increasing values)
  5. `RL.blockFor` (binary search)
- 6. builder invariant, defect F9
+ 6. builder invariant, preserved by `try_set` and by the repaired `set_len`; defect F9 of the `set_len` as
+    first written (`setLenOld`)
  7. `RunIter`: single steps, iteration over a block layout, what the builder writes, round trip
-    build → `From<RLBuilder>` → iterate = `maximalRuns`; an additional finding (`zeroIdx_*`)
+    build → `From<RLBuilder>` → iterate = `maximalRuns` (also with `set_len` calls); the former finding
+    `zeroIdx_*` (F10): the conversion that used to panic now succeeds
 Core Lean only.
 -/
 import Sds.Model.RL
@@ -359,21 +363,53 @@ theorem divRoundUp_checked_overflow {value n : Nat} (h : U64 ≤ value + n) :
   unfold divRoundUp addM
   rw [if_neg (by omega)]; rfl
 
+/-- the overflow-free rounding of the repaired `parameters` is the mathematical `⌈value / n⌉`, for every
+`value` (no bound at all) -/
+theorem ceilDiv_eq (value n : Nat) (hn : 1 ≤ n) :
+    value / n + (if value % n ≠ 0 then 1 else 0) = (value + n - 1) / n := by
+  have hdm : n * (value / n) + value % n = value := Nat.div_add_mod value n
+  have hr : value % n < n := Nat.mod_lt _ (by omega)
+  generalize value / n = q at *
+  generalize value % n = r at *
+  have e1 : q * n = n * q := Nat.mul_comm _ _
+  have e2 : (q + 1) * n = n * q + n := by rw [Nat.succ_mul, e1]
+  have e3 : (q + 1 + 1) * n = n * q + n + n := by rw [Nat.succ_mul, e2]
+  by_cases h0 : r = 0
+  · rw [if_neg (by omega), Nat.add_zero]
+    exact (Nat.div_eq_of_lt_le (by omega) (by omega)).symm
+  · rw [if_pos h0]
+    exact (Nat.div_eq_of_lt_le (by omega) (by omega)).symm
+
 namespace SampleIndex
+
+theorem divRoundUpSafe_ok {value n : Nat} (hn : 1 ≤ n) :
+    divRoundUpSafe value n = ok ((value + n - 1) / n) := by
+  unfold divRoundUpSafe
+  rw [if_neg (by omega), ceilDiv_eq value n hn]
+
+theorem divRoundUpSafe_zero (value : Nat) : divRoundUpSafe value 0 = fault (.panic .other) := rfl
 
 /-- first rounding of `parameters` -/
 def ns0 (values : Nat) : Nat := (values + 7) / 8
-/-- the divisor computed by `parameters` -/
+/-- the divisor computed by `parameters`: `⌈univ / ns0⌉` -/
 def div0 (values univ : Nat) : Nat := (univ + ns0 values - 1) / ns0 values
-/-- the number of samples computed by `parameters` -/
+/-- the number of samples computed by `parameters`: `⌈univ / div0⌉` -/
 def nsam (values univ : Nat) : Nat := (univ + div0 values univ - 1) / div0 values univ
 
-/-- exact condition under which none of the three `div_round_up` calls overflows -/
-def NoOverflow (values univ : Nat) : Prop :=
+/-- condition under which the repaired `parameters` does not overflow: only the first rounding
+`div_round_up(values, 8)` still adds before dividing; the universe size is unconstrained -/
+def NoOverflow (values : Nat) : Prop := values + 8 < U64
+
+instance (values : Nat) : Decidable (NoOverflow values) := by
+  unfold NoOverflow; exact inferInstance
+
+/-- exact condition under which none of the three `div_round_up` calls of `parameters` *as first
+written* (`parametersOld`, finding F8) overflows -/
+def OldNoOverflow (values univ : Nat) : Prop :=
   values + 8 < U64 ∧ univ + ns0 values < U64 ∧ univ + div0 values univ < U64
 
-instance (values univ : Nat) : Decidable (NoOverflow values univ) := by
-  unfold NoOverflow; exact inferInstance
+instance (values univ : Nat) : Decidable (OldNoOverflow values univ) := by
+  unfold OldNoOverflow; exact inferInstance
 
 theorem ns0_pos {values : Nat} (h : 1 ≤ values) : 1 ≤ ns0 values := by unfold ns0; omega
 
@@ -390,28 +426,65 @@ theorem div0_le {values univ : Nat} (hv : 1 ≤ values) : div0 values univ ≤ u
   have : univ * 1 ≤ univ * ns0 values := Nat.mul_le_mul_left _ this
   rw [Nat.succ_mul]; omega
 
-theorem noOverflow_of_lt {values univ : Nat} (hv : 1 ≤ values) (h1 : values < 2 ^ 63) (h2 : univ < 2 ^ 63) :
-    NoOverflow values univ := by
+/-- the number of values is a `usize` that leaves room for the `+ 7` of the first rounding: that is
+all the repaired `parameters` needs — nothing relates `univ` to `2^63` any more -/
+theorem noOverflow_of_lt {values : Nat} (h1 : values + 8 < 2 ^ 64) : NoOverflow values := by
+  unfold NoOverflow; rw [U64_eq]; exact h1
+
+/-- the old sufficient condition (both arguments below `2^63`) for the old function -/
+theorem oldNoOverflow_of_lt {values univ : Nat} (hv : 1 ≤ values) (h1 : values < 2 ^ 63) (h2 : univ < 2 ^ 63) :
+    OldNoOverflow values univ := by
   have := @div0_le values univ hv
-  unfold NoOverflow ns0 at *
+  unfold OldNoOverflow ns0 at *
   rw [U64_eq]; omega
 
+theorem OldNoOverflow.noOverflow {values univ : Nat} (h : OldNoOverflow values univ) : NoOverflow values := h.1
+
+/-- the repaired `parameters` succeeds, in both modes, for **every** universe size `univ ≥ 1`
+(any natural number, in particular every `univ < 2^64`) -/
 theorem parameters_ok (m : Mode) {values univ : Nat} (hv : 1 ≤ values) (hu : 1 ≤ univ)
-    (h : NoOverflow values univ) :
+    (h : NoOverflow values) :
     parameters m values univ = ok (nsam values univ, div0 values univ) := by
-  obtain ⟨h1, h2, h3⟩ := h
   unfold parameters
+  rw [divRoundUp_ok_rl h (by omega)]; simp only [bind_ok]
+  rw [show (values + 8 - 1) / 8 = ns0 values by unfold ns0; rfl]
+  rw [divRoundUpSafe_ok (ns0_pos hv)]; simp only [bind_ok]
+  rw [show (univ + ns0 values - 1) / ns0 values = div0 values univ by rfl]
+  rw [divRoundUpSafe_ok (div0_pos hv hu)]; rfl
+
+/-- `values + 8 < 2^64` is exact in checked builds: otherwise the first rounding overflows -/
+theorem parameters_checked_ok_iff {values univ : Nat} (hv : 1 ≤ values) (hu : 1 ≤ univ) :
+    (∃ r, parameters .checked values univ = ok r) ↔ NoOverflow values := by
+  constructor
+  · intro ⟨r, hr⟩
+    by_cases h : NoOverflow values
+    · exact h
+    · unfold parameters at hr
+      rw [divRoundUp_checked_overflow (by unfold NoOverflow at h; omega)] at hr
+      cases hr
+  · intro h; exact ⟨_, parameters_ok .checked hv hu h⟩
+
+/-- the function as first written agrees with the repaired one whenever it does not overflow -/
+theorem parametersOld_ok (m : Mode) {values univ : Nat} (hv : 1 ≤ values) (hu : 1 ≤ univ)
+    (h : OldNoOverflow values univ) :
+    parametersOld m values univ = ok (nsam values univ, div0 values univ) := by
+  obtain ⟨h1, h2, h3⟩ := h
+  unfold parametersOld
   rw [divRoundUp_ok_rl h1 (by omega)]; simp only [bind_ok]
   rw [show (values + 8 - 1) / 8 = ns0 values by unfold ns0; rfl]
   rw [divRoundUp_ok_rl h2 (ns0_pos hv)]; simp only [bind_ok]
   rw [show (univ + ns0 values - 1) / ns0 values = div0 values univ by rfl]
   rw [divRoundUp_ok_rl h3 (div0_pos hv hu)]; rfl
 
-/-- the condition is exact in checked builds -/
+theorem parametersOld_eq_parameters (m : Mode) {values univ : Nat} (hv : 1 ≤ values) (hu : 1 ≤ univ)
+    (h : OldNoOverflow values univ) : parametersOld m values univ = parameters m values univ := by
+  rw [parametersOld_ok m hv hu h, parameters_ok m hv hu h.1]
+
+/-- (F8, old code) the condition is exact in checked builds -/
 theorem parameters_checked_overflow {values univ : Nat} (hv : 1 ≤ values)
-    (h : ¬ NoOverflow values univ) :
-    parameters .checked values univ = fault (.panic .overflow) := by
-  unfold parameters
+    (h : ¬ OldNoOverflow values univ) :
+    parametersOld .checked values univ = fault (.panic .overflow) := by
+  unfold parametersOld
   by_cases h1 : values + 8 < U64
   · rw [divRoundUp_ok_rl h1 (by omega)]; simp only [bind_ok]
     rw [show (values + 8 - 1) / 8 = ns0 values by unfold ns0; rfl]
@@ -423,16 +496,18 @@ theorem parameters_checked_overflow {values univ : Nat} (hv : 1 ≤ values)
     · rw [divRoundUp_checked_overflow (by omega)]; rfl
   · rw [divRoundUp_checked_overflow (by omega)]; rfl
 
+/-- (F8, old code) -/
 theorem parameters_checked_iff {values univ : Nat} (hv : 1 ≤ values) (hu : 1 ≤ univ) :
-    (∃ r, parameters .checked values univ = ok r) ↔ NoOverflow values univ := by
+    (∃ r, parametersOld .checked values univ = ok r) ↔ OldNoOverflow values univ := by
   constructor
   · intro ⟨r, hr⟩
-    by_cases h : NoOverflow values univ
+    by_cases h : OldNoOverflow values univ
     · exact h
     · rw [parameters_checked_overflow hv h] at hr; cases hr
-  · intro h; exact ⟨_, parameters_ok .checked hv hu h⟩
+  · intro h; exact ⟨_, parametersOld_ok .checked hv hu h⟩
 
-/-- arithmetic facts about the result: `ns` samples with spacing `d` cover exactly `0 .. univ-1` -/
+/-- arithmetic facts about the result: `ns` samples with spacing `d` cover exactly `0 .. univ-1`.
+Pure arithmetic: holds for every `values ≥ 1` and every `univ ≥ 1`. -/
 theorem parameters_spec {values univ : Nat} (hv : 1 ≤ values) (hu : 1 ≤ univ) :
     1 ≤ div0 values univ ∧
     (nsam values univ - 1) * div0 values univ < univ ∧
@@ -453,25 +528,53 @@ theorem parameters_spec {values univ : Nat} (hv : 1 ≤ values) (hu : 1 ≤ univ
   rw [Nat.succ_mul] at b ⊢
   exact ⟨hd, by omega, by omega, rfl, by omega⟩
 
-/-- the statement in the requested form -/
+/-- the statement in the requested form: the repaired `parameters` returns, in both modes and for
+every universe size (no relation between `univ` and `2^63`, indeed no bound on `univ` at all), a pair
+`(ns, d)` with `1 ≤ d`, `(ns − 1) * d < univ ≤ ns * d`, `(univ − 1) / d = ns − 1`, `1 ≤ ns` -/
 theorem parameters_contract (m : Mode) {values univ : Nat} (hv : 1 ≤ values) (hu : 1 ≤ univ)
-    (h : NoOverflow values univ) :
+    (h : values + 8 < U64) :
     ∃ ns d, parameters m values univ = ok (ns, d) ∧ 1 ≤ d ∧ (ns - 1) * d < univ ∧ univ ≤ ns * d ∧
-      (univ - 1) / d = ns - 1 := by
-  obtain ⟨a, b, c, d, _⟩ := parameters_spec hv hu
-  exact ⟨_, _, parameters_ok m hv hu h, a, b, c, d⟩
+      (univ - 1) / d = ns - 1 ∧ 1 ≤ ns := by
+  obtain ⟨a, b, c, d, e⟩ := parameters_spec hv hu
+  exact ⟨_, _, parameters_ok m hv hu h, a, b, c, d, e⟩
 
-/-- **Defect F8.** `values = 1`, `univ = 2^63`: every quantity involved fits in 64 bits
-(`ns = 1`, `divisor = 2^63`), yet `parameters` panics in checked builds because
-`div_round_up(univ, divisor)` computes `univ + divisor = 2^64` before subtracting 1. -/
+/-- in particular for every `usize` universe -/
+theorem parameters_contract_usize (m : Mode) {values univ : Nat} (hv : 1 ≤ values) (hu : 1 ≤ univ)
+    (h : values + 8 < U64) (_hu64 : univ < 2 ^ 64) :
+    ∃ ns d, parameters m values univ = ok (ns, d) ∧ 1 ≤ d ∧ (ns - 1) * d < univ ∧ univ ≤ ns * d ∧
+      (univ - 1) / d = ns - 1 ∧ 1 ≤ ns ∧ ns < 2 ^ 64 ∧ d < 2 ^ 64 := by
+  obtain ⟨ns, d, e, h1, h2, h3, h4, h5⟩ := parameters_contract m hv hu h
+  refine ⟨ns, d, e, h1, h2, h3, h4, h5, ?_, ?_⟩
+  · -- ns - 1 ≤ (ns - 1) * d < univ
+    have : (ns - 1) * 1 ≤ (ns - 1) * d := Nat.mul_le_mul_left _ h1
+    omega
+  · -- d = div0 ≤ univ
+    rw [parameters_ok m hv hu h] at e
+    injection e with e; injection e with e1 e2
+    have := @div0_le values univ hv
+    omega
+
+/-- **Defect F8** (code as first written, `parametersOld`). `values = 1`, `univ = 2^63`: every quantity
+involved fits in 64 bits (`ns = 1`, `divisor = 2^63`), yet the old `parameters` panics in checked builds
+because `div_round_up(univ, divisor)` computes `univ + divisor = 2^64` before subtracting 1. -/
 theorem F8_parameters_overflow :
-    parameters .checked 1 (2 ^ 63) = fault (.panic .overflow) ∧
+    parametersOld .checked 1 (2 ^ 63) = fault (.panic .overflow) ∧
     nsam 1 (2 ^ 63) = 1 ∧ div0 1 (2 ^ 63) = 2 ^ 63 ∧ 2 ^ 63 < U64 := by decide
 
-/-- in release builds the same call returns the right answer only by accident: `univ + divisor` wraps
-to 0, `0 - 1` wraps to `2^64 - 1`, and `(2^64 - 1) / 2^63 = 1` -/
+/-- in release builds the same call of the old function returns the right answer only by accident:
+`univ + divisor` wraps to 0, `0 - 1` wraps to `2^64 - 1`, and `(2^64 - 1) / 2^63 = 1` -/
 theorem F8_parameters_wrapping :
-    parameters .wrapping 1 (2 ^ 63) = ok (1, 2 ^ 63) := by decide
+    parametersOld .wrapping 1 (2 ^ 63) = ok (1, 2 ^ 63) := by decide
+
+/-- **F8 repaired.** The same call, and the largest `usize` universe, succeed in checked builds (and
+in release builds, without any wrap-around) -/
+theorem F8_parameters_fixed :
+    parameters .checked 1 (2 ^ 63) = ok (1, 2 ^ 63) ∧
+    parameters .wrapping 1 (2 ^ 63) = ok (1, 2 ^ 63) ∧
+    parameters .checked 1 (2 ^ 64 - 1) = ok (1, 2 ^ 64 - 1) ∧
+    parameters .wrapping 1 (2 ^ 64 - 1) = ok (1, 2 ^ 64 - 1) ∧
+    parameters .checked 9 (2 ^ 64 - 1) = ok (2, 2 ^ 63) ∧
+    parametersOld .checked 1 (2 ^ 64 - 1) = fault (.panic .overflow) := by decide
 
 end SampleIndex
 
@@ -666,7 +769,8 @@ theorem decode_after_encode (m : Mode) (v : RL) {d : IntVec} (h : d.WF) (hw : d.
   apply RL.decode_encode m v d.len x rest hx
   rw [hv, e, List.append_assoc, List.drop_left' (IntVec.items_length_rl d)]
 
-/-- representation invariant of the builder between calls of `try_set` (not of `set_len`, see F9) -/
+/-- representation invariant of the builder between calls of `try_set` and of the repaired `set_len`
+(the `set_len` as first written broke it, see F9) -/
 structure Inv (b : RLBuilder) : Prop where
   /-- the pending run starts at or after the end of the last flushed run -/
   tail_le : b.tail ≤ b.run.1
@@ -807,13 +911,13 @@ theorem trySet_fault_kind (m : Mode) {b : RLBuilder} (h : b.Inv) (start len : Na
   have hc := (trySet_fault_iff m h start len hlen).1 ⟨e, he⟩
   rw [f hc] at he; injection he with he; exact he.symm
 
-/-- `set_len` does **not** preserve the invariant: it flushes (which parks the empty pending run at the
-old `len`) and then moves `len` without moving the pending run. -/
+/-- `set_len` **as first written** (`setLenOld`, finding F9) does not preserve the invariant: it flushes
+(which parks the empty pending run at the old `len`) and then moves `len` without moving the pending run. -/
 theorem setLen_breaks_inv (m : Mode) {b : RLBuilder} (h : b.Inv) (n : Nat) (hn : b.len < n) :
-    ∃ b', b.setLen m n = ok b' ∧ b'.len = n ∧ b'.run = (b.len, 0) ∧ b'.run.1 + b'.run.2 ≠ b'.len ∧
+    ∃ b', b.setLenOld m n = ok b' ∧ b'.len = n ∧ b'.run = (b.len, 0) ∧ b'.run.1 + b'.run.2 ≠ b'.len ∧
       ¬ b'.Inv := by
   obtain ⟨b1, e, i, l1, l2, l3⟩ := flush_spec m h
-  unfold setLen
+  unfold setLenOld
   rw [if_pos hn, e]
   refine ⟨_, rfl, rfl, l3, ?_, ?_⟩
   · show b1.run.1 + b1.run.2 ≠ n; rw [l3]; simp; omega
@@ -822,23 +926,68 @@ theorem setLen_breaks_inv (m : Mode) {b : RLBuilder} (h : b.Inv) (n : Nat) (hn :
     change b1.run.1 + b1.run.2 = n at this
     rw [l3] at this; simp at this; omega
 
-/-- **Defect F9.** From the empty builder, `set_len(10)` followed by `try_set(10, 5)` is accepted and
-produces the pending run `(0, 5)` instead of `(10, 5)`: the new run is *merged* with the stale empty
-run parked at position 0, because `start == self.len` is taken to mean "adjacent to the pending run". -/
+/-- the repaired `set_len` (the model's `setLen`) **preserves the invariant** and never faults under it,
+in both modes (`n < 2^64`: the argument is a `usize`); it never decreases `len`, keeps `ones`, and when
+it extends the vector the empty pending run is parked at the new length -/
+theorem setLen_spec (m : Mode) {b : RLBuilder} (h : b.Inv) (n : Nat) (hn : n < U64) :
+    ∃ b', b.setLen m n = ok b' ∧ b'.Inv ∧ b'.len = max b.len n ∧ b'.ones = b.ones ∧
+      (n ≤ b.len → b' = b) ∧ (b.len < n → b'.run = (n, 0)) := by
+  unfold setLen
+  by_cases hc : n > b.len
+  · obtain ⟨b1, e, i, l1, l2, l3⟩ := flush_spec m h
+    have r1 : b1.run.1 = b.len := by rw [l3]
+    have r2 : b1.run.2 = 0 := by rw [l3]
+    obtain ⟨h1, h2, h3, h4, h5, h6, h7, h8⟩ := i
+    rw [if_pos hc, e]
+    refine ⟨_, rfl, ⟨?_, ?_, ?_, ?_, hn, h6, h7, h8⟩, ?_, l2, fun c => absurd c (by omega), fun _ => rfl⟩
+    · show b1.tail ≤ n; omega
+    · show n + 0 = n; omega
+    · show 0 ≤ b1.ones; omega
+    · show b1.ones - 0 ≤ b1.tail; omega
+    · show n = max b.len n; omega
+  · rw [if_neg hc]
+    exact ⟨b, rfl, h, by omega, rfl, fun _ => rfl, fun c => absurd c hc⟩
+
+theorem setLen_inv (m : Mode) {b b' : RLBuilder} (h : b.Inv) (n : Nat) (hn : n < U64)
+    (hs : b.setLen m n = ok b') : b'.Inv := by
+  obtain ⟨b'', e, i, _⟩ := setLen_spec m h n hn
+  rw [e] at hs; injection hs with hs; subst hs; exact i
+
+/-- `set_len` never faults under the invariant -/
+theorem setLen_no_fault (m : Mode) {b : RLBuilder} (h : b.Inv) (n : Nat) (hn : n < U64) (e : Fault) :
+    b.setLen m n ≠ fault e := by
+  obtain ⟨b', e', _⟩ := setLen_spec m h n hn
+  rw [e']; intro hc; cases hc
+
+/-- **Defect F9** (code as first written). From the empty builder, the old `set_len(10)` followed by
+`try_set(10, 5)` is accepted and produces the pending run `(0, 5)` instead of `(10, 5)`: the new run is
+*merged* with the stale empty run parked at position 0, because `start == self.len` is taken to mean
+"adjacent to the pending run". -/
 theorem F9_setLen_then_adjacent_run :
-    (do let b ← ({} : RLBuilder).setLen .checked 10
+    (do let b ← ({} : RLBuilder).setLenOld .checked 10
         let b ← b.trySet .checked 10 5
         return (b.run, b.len, b.ones, b.tail)) = ok ((0, 5), 15, 5, 0) := by decide
+
+/-- **F9 repaired**: with the model's `setLen` the same two calls give `run = (10, 5)`, `len = 15`,
+`ones = 5` -/
+theorem F9_fixed :
+    (do let b ← ({} : RLBuilder).setLen .checked 10
+        let b ← b.trySet .checked 10 5
+        return (b.run, b.len, b.ones, b.tail)) = ok ((10, 5), 15, 5, 0) ∧
+    (do let b ← ({} : RLBuilder).setLen .wrapping 10
+        let b ← b.trySet .wrapping 10 5
+        return (b.run, b.len, b.ones, b.tail)) = ok ((10, 5), 15, 5, 0) := by decide
 
 /-- the same two calls in the other order of magnitude: without the `set_len` the run is right -/
 theorem F9_reference :
     (do let b ← ({} : RLBuilder).trySet .checked 10 5
         return (b.run, b.len, b.ones, b.tail)) = ok ((10, 5), 15, 5, 0) := by decide
 
-/-- F9, what reaches the encoded data: gap 0 and length 5 (units `[0, 4]`), i.e. the bits 0..4 are set and
-the bits 10..14 are not, although `len = 15` and `ones = 5` are those of the intended vector … -/
+/-- F9, what reached the encoded data with the old `set_len`: gap 0 and length 5 (units `[0, 4]`), i.e. the
+bits 0..4 are set and the bits 10..14 are not, although `len = 15` and `ones = 5` are those of the intended
+vector … -/
 theorem F9_encoded :
-    (do let b ← ({} : RLBuilder).setLen .checked 10
+    (do let b ← ({} : RLBuilder).setLenOld .checked 10
         let b ← b.trySet .checked 10 5
         let b ← b.flush .checked
         return (b.data.items, b.samples.toList, b.len, b.ones)) = ok ([0, 4], [(0, 0)], 15, 5) := by decide
@@ -846,6 +995,13 @@ theorem F9_encoded :
 /-- … whereas the intended run `(10, 5)` is encoded as gap 10 = `[2+8, 1]`, length-1 = `[4]` -/
 theorem F9_encoded_reference :
     (do let b ← ({} : RLBuilder).trySet .checked 10 5
+        let b ← b.flush .checked
+        return (b.data.items, b.samples.toList, b.len, b.ones)) = ok ([10, 1, 4], [(0, 0)], 15, 5) := by decide
+
+/-- … and that is what the repaired `set_len` now produces -/
+theorem F9_encoded_fixed :
+    (do let b ← ({} : RLBuilder).setLen .checked 10
+        let b ← b.trySet .checked 10 5
         let b ← b.flush .checked
         return (b.data.items, b.samples.toList, b.len, b.ones)) = ok ([10, 1, 4], [(0, 0)], 15, 5) := by decide
 
@@ -919,13 +1075,19 @@ end IntVec
 
 namespace SampleIndex
 
-/-- `k` is the index of the last element of `values` that is `≤ T` -/
+/-- `k` is the index of the last element of `values` that is `≤ T` (meaningful with duplicates: of several
+equal values `≤ T` it is the last one) -/
 def LastLE (values : List Nat) (T k : Nat) : Prop :=
   ∃ hk : k < values.length, values[k] ≤ T ∧ ∀ j (hj : j < values.length), k < j → T < values[j]
 
-/-- index-based strict monotonicity -/
+/-- index-based strict monotonicity (what `SampleIndex::new` asserted as first written, finding F10) -/
 def StrictInc (values : List Nat) : Prop :=
   ∀ i j (_ : i < j) (hj : j < values.length), values[i]'(by omega) < values[j]
+
+/-- index-based monotonicity: non-decreasing values, duplicates allowed (what the repaired
+`SampleIndex::new` asserts) -/
+def NonDec (values : List Nat) : Prop :=
+  ∀ i j (_ : i ≤ j) (hj : j < values.length), values[i]'(by omega) ≤ values[j]
 
 theorem strictInc_iff_pairwise (values : List Nat) : StrictInc values ↔ List.Pairwise (· < ·) values := by
   rw [List.pairwise_iff_getElem]
@@ -933,14 +1095,63 @@ theorem strictInc_iff_pairwise (values : List Nat) : StrictInc values ↔ List.P
   · intro h i j hi hj hij; exact h i j hij hj
   · intro h i j hij hj; exact h i j (by omega) hj hij
 
-/-- what `new` establishes and `range` relies on: sample `i` holds the index of the last value
-`≤ i * divisor`; the samples cover `0 .. univ-1` -/
+theorem nonDec_iff_pairwise (values : List Nat) : NonDec values ↔ List.Pairwise (· ≤ ·) values := by
+  rw [List.pairwise_iff_getElem]
+  constructor
+  · intro h i j hi hj hij; exact h i j (by omega) hj
+  · intro h i j hij hj
+    rcases Nat.eq_or_lt_of_le hij with heq | hlt
+    · subst heq; exact Nat.le_refl _
+    · exact h i j (by omega) hj hlt
+
+theorem StrictInc.nonDec {values : List Nat} (h : StrictInc values) : NonDec values := by
+  intro i j hij hj
+  rcases Nat.eq_or_lt_of_le hij with heq | hlt
+  · subst heq; exact Nat.le_refl _
+  · exact Nat.le_of_lt (h i j hlt hj)
+
+/-- what `new` establishes and `range` relies on: sample `i ≥ 1` holds the index of the last value
+`≤ i * divisor`; sample 0 (which `new` never writes: it stays 0, the index of the first value, which is 0)
+holds the index of *a* value `≤ 0` — with duplicates of the value 0 it is the first of them, not the last
+(see `Valid.sample_strict` for the strictly increasing case); the samples cover `0 .. univ-1` -/
 structure Valid (s : SampleIndex) (values : List Nat) (univ : Nat) : Prop where
   numValues : s.numValues = values.length
   numValues_lt : values.length < U64
   divisor_pos : 1 ≤ s.divisor
   len_eq : s.samples.len = (univ - 1) / s.divisor + 1
-  sample : ∀ i, i < s.samples.len → LastLE values (i * s.divisor) (s.samples.getRaw i).toNat
+  sample_zero : ∃ hk : (s.samples.getRaw 0).toNat < values.length, values[(s.samples.getRaw 0).toNat] ≤ 0
+  sample : ∀ i, 1 ≤ i → i < s.samples.len → LastLE values (i * s.divisor) (s.samples.getRaw i).toNat
+
+/-- every sample points to a value `≤ i * divisor` -/
+theorem Valid.sample_le {s : SampleIndex} {values : List Nat} {univ : Nat} (hv : s.Valid values univ)
+    (i : Nat) (hi : i < s.samples.len) :
+    ∃ hk : (s.samples.getRaw i).toNat < values.length, values[(s.samples.getRaw i).toNat] ≤ i * s.divisor := by
+  by_cases h0 : i = 0
+  · subst h0
+    obtain ⟨hk, hle⟩ := hv.sample_zero
+    exact ⟨hk, by omega⟩
+  · obtain ⟨hk, hle, _⟩ := hv.sample i (by omega) hi
+    exact ⟨hk, hle⟩
+
+/-- on strictly increasing values (the case of the code as first written) *every* sample, including sample
+0, is the index of the last value `≤ i * divisor` -/
+theorem Valid.sample_strict {s : SampleIndex} {values : List Nat} {univ : Nat} (hv : s.Valid values univ)
+    (hs : StrictInc values) (i : Nat) (hi : i < s.samples.len) :
+    LastLE values (i * s.divisor) (s.samples.getRaw i).toNat := by
+  by_cases h0 : i = 0
+  · subst h0
+    obtain ⟨hk, hle⟩ := hv.sample_zero
+    generalize (s.samples.getRaw 0).toNat = k at *
+    have hk0 : k = 0 := by
+      rcases Nat.eq_zero_or_pos k with h | h
+      · exact h
+      · have := hs 0 k h hk; omega
+    subst hk0
+    refine ⟨hk, by omega, ?_⟩
+    intro j hj hj0
+    have := hs 0 j hj0 hj
+    omega
+  · exact hv.sample i (by omega) hi
 
 /-- the contract in the doc comment of `range`, which `block_for` relies on: a non-empty index range
 `lo..hi` with `values[lo] ≤ x` and `x < values[hi]` (or `hi` = number of values) -/
@@ -949,7 +1160,8 @@ theorem range_spec {s : SampleIndex} {values : List Nat} {univ : Nat} (hv : s.Va
     ∃ lo hi, s.range x = ok (lo, hi) ∧ lo < hi ∧ hi ≤ values.length ∧
       (∃ h : lo < values.length, values[lo] ≤ x) ∧
       (hi = values.length ∨ ∃ h : hi < values.length, x < values[hi]) := by
-  obtain ⟨v1, v2, v3, v4, v5⟩ := hv
+  have hsle := hv.sample_le
+  obtain ⟨v1, v2, v3, v4, _, v5⟩ := hv
   generalize hd : s.divisor = d at *
   have ho : x / d < s.samples.len := by
     have : x / d ≤ (univ - 1) / d := Nat.div_le_div_right (by omega)
@@ -959,12 +1171,12 @@ theorem range_spec {s : SampleIndex} {values : List Nat} {univ : Nat} (hv : s.Va
     have := Nat.lt_mul_div_succ x (show 0 < d by omega)
     rw [Nat.mul_comm] at this; exact this
   have hstep : (x / d + 1) * d = x / d * d + d := Nat.succ_mul _ _
-  obtain ⟨k0lt, k0le, k0gt⟩ := v5 _ ho
+  obtain ⟨k0lt, k0le⟩ := hsle _ ho
   unfold range
   rw [hd, if_neg (by omega)]
   simp only [IntVec.getOr_def, if_pos ho]
   by_cases h1 : x / d + 1 < s.samples.len
-  · obtain ⟨k1lt, k1le, k1gt⟩ := v5 _ h1
+  · obtain ⟨k1lt, k1le, k1gt⟩ := v5 (x / d + 1) (Nat.le_add_left 1 _) h1
     simp only [if_pos h1, v1, if_pos k1lt]
     generalize (s.samples.getRaw (x / d)).toNat = k0 at *
     generalize (s.samples.getRaw (x / d + 1)).toNat = k1 at *
@@ -982,9 +1194,9 @@ theorem range_spec {s : SampleIndex} {values : List Nat} {univ : Nat} (hv : s.Va
     simp only [if_neg h1, v1, this, Nat.lt_irrefl, if_false]
     exact ⟨_, _, rfl, k0lt, Nat.le_refl _, ⟨k0lt, by omega⟩, Or.inl rfl⟩
 
-/-- the inner `while` of `new` on a strictly increasing list: never asserts, never runs out of fuel, stops at
-the last value `≤ threshold` -/
-theorem consume_spec {values : List Nat} (hs : StrictInc values) (T : Nat) :
+/-- the inner `while` of the repaired `new` on a **non-decreasing** list (duplicates allowed): never asserts,
+never runs out of fuel, stops at the last value `≤ threshold` -/
+theorem consume_spec {values : List Nat} (hs : NonDec values) (T : Nat) :
     ∀ (fuel offset : Nat) (ho : offset < values.length), values.length - (offset + 1) < fuel →
       ∃ o', ∃ ho' : o' < values.length,
         consume T fuel offset values[offset] (values.drop (offset + 1)) =
@@ -1013,23 +1225,65 @@ theorem consume_spec {values : List Nat} (hs : StrictInc values) (T : Nat) :
       refine ⟨offset, ho, ?_, Nat.le_refl _, fun j hj h1 h2 => by omega, fun hn => by omega⟩
       simp [consume]; omega
 
-theorem fill_spec (m : Mode) {values : List Nat} (hs : StrictInc values) (d ns w : Nat)
+/-- the strict case as a corollary -/
+theorem consume_spec_strict {values : List Nat} (hs : StrictInc values) (T : Nat)
+    (fuel offset : Nat) (ho : offset < values.length) (hf : values.length - (offset + 1) < fuel) :
+    ∃ o', ∃ ho' : o' < values.length,
+      consume T fuel offset values[offset] (values.drop (offset + 1)) =
+        ok (o', values[o'], values.drop (o' + 1)) ∧ offset ≤ o' ∧
+      (∀ j (hj : j < values.length), offset < j → j ≤ o' → values[j] ≤ T) ∧
+      (∀ hn : o' + 1 < values.length, T < values[o' + 1]) :=
+  consume_spec hs.nonDec T fuel offset ho hf
+
+/-- on strictly increasing input the loop as first written (`consumeOld`, strict assertion) and the repaired
+loop agree: the repair only *adds* accepted inputs -/
+theorem consumeOld_eq_consume_of_strict {values : List Nat} (hs : StrictInc values) (T : Nat) :
+    ∀ (fuel offset : Nat) (ho : offset < values.length),
+      consumeOld T fuel offset values[offset] (values.drop (offset + 1)) =
+        consume T fuel offset values[offset] (values.drop (offset + 1)) := by
+  intro fuel
+  induction fuel with
+  | zero => intro offset ho; rfl
+  | succ fuel ih =>
+    intro offset ho
+    by_cases hend : offset + 1 < values.length
+    · rw [List.drop_eq_getElem_cons hend, consume, consumeOld]
+      by_cases hgt : values[offset + 1] > T
+      · rw [if_pos hgt, if_pos hgt]
+      · have hlt := hs offset (offset + 1) (by omega) hend
+        rw [if_neg hgt, if_neg hgt, if_pos hlt, if_pos (Nat.le_of_lt hlt)]
+        exact ih (offset + 1) hend
+    · rw [List.drop_eq_nil_of_le (show values.length ≤ offset + 1 by omega)]
+      simp [consume, consumeOld]
+
+/-- **F10, minimal witness**: a duplicate value below the threshold made the loop as first written panic on
+its strict-monotonicity assertion; the repaired loop consumes it -/
+theorem F10_consume_duplicate :
+    consumeOld 5 3 0 0 [0, 7] = fault (.panic .assert) ∧
+    consume 5 3 0 0 [0, 7] = ok (1, 0, [7]) := by decide
+
+/-- a *decreasing* pair is still rejected by the repaired loop -/
+theorem consume_decreasing_panics : consume 5 3 0 3 [2, 7] = fault (.panic .assert) := by decide
+
+/-- the outer loop of `new`: samples `i, i+1, …, ns-1` are set to the index of the last value
+`≤ sample * divisor`; the samples before `i` are left alone -/
+theorem fill_spec (m : Mode) {values : List Nat} (hs : NonDec values) (d ns w : Nat)
     (hw : values.length - 1 < 2 ^ w) (hw64 : w ≤ 64) (hmul : (ns - 1) * d < U64) :
     ∀ (n i offset : Nat) (smp : IntVec) (ho : offset < values.length), i + n = ns →
       values[offset] ≤ i * d → smp.WF → smp.len = ns → smp.width = w →
-      (∀ t, t < i → LastLE values (t * d) (smp.getRaw t).toNat) →
       ∃ smp' o', ∃ ho' : o' < values.length,
         fill m d (List.range' i n) offset values[offset] (values.drop (offset + 1)) smp =
           ok (smp', values[o']) ∧ smp'.len = ns ∧
-        ∀ t, t < ns → LastLE values (t * d) (smp'.getRaw t).toNat := by
+        (∀ t, t < i → smp'.getRaw t = smp.getRaw t) ∧
+        ∀ t, i ≤ t → t < ns → LastLE values (t * d) (smp'.getRaw t).toNat := by
   intro n
   induction n with
   | zero =>
-    intro i offset smp ho hi hle hwf hlen hwid hprev
-    refine ⟨smp, offset, ho, rfl, hlen, ?_⟩
-    intro t ht; exact hprev t (by omega)
+    intro i offset smp ho hi hle hwf hlen hwid
+    refine ⟨smp, offset, ho, rfl, hlen, fun _ _ => rfl, ?_⟩
+    intro t ht ht'; omega
   | succ n ih =>
-    intro i offset smp ho hi hle hwf hlen hwid hprev
+    intro i offset smp ho hi hle hwf hlen hwid
     rw [List.range'_succ, fill]
     have hid : i * d ≤ (ns - 1) * d := Nat.mul_le_mul_right _ (by omega)
     rw [mulM_ok (by omega)]
@@ -1050,57 +1304,56 @@ theorem fill_spec (m : Mode) {values : List Nat} (hs : StrictInc values) (d ns w
       · subst heq; exact hle
       · exact h2 o' ho' hlt (Nat.le_refl _)
     have hstep : (i + 1) * d = i * d + d := Nat.succ_mul _ _
-    obtain ⟨smp'', o'', ho2, e2, l2, p2⟩ := ih (i + 1) o' smp' ho' (by omega) (by omega) s1
-      (by omega) (by rw [s3, hwid]) (by
-        intro t ht
-        by_cases hti : t = i
-        · subst hti
-          rw [s4, ho'']
-          refine ⟨ho', hle', ?_⟩
-          intro j hj hjo
-          have a := h3 (by omega)
-          rcases Nat.eq_or_lt_of_le (show o' + 1 ≤ j by omega) with heq | hlt
-          · subst heq; exact a
-          · have := hs (o' + 1) j hlt hj; omega
-        · rw [s5 t (by omega) hti]; exact hprev t (by omega))
-    exact ⟨smp'', o'', ho2, e2, l2, p2⟩
+    obtain ⟨smp'', o'', ho2, e2, l2, q2, p2⟩ := ih (i + 1) o' smp' ho' (by omega) (by omega) s1
+      (by omega) (by rw [s3, hwid])
+    refine ⟨smp'', o'', ho2, e2, l2, ?_, ?_⟩
+    · intro t ht
+      rw [q2 t (by omega), s5 t (by omega) (by omega)]
+    · intro t hti htn
+      by_cases hte : t = i
+      · subst hte
+        rw [q2 t (by omega), s4, ho'']
+        refine ⟨ho', hle', ?_⟩
+        intro j hj hjo
+        have a := h3 (by omega)
+        have := hs (o' + 1) j (by omega) hj
+        omega
+      · exact p2 t (by omega) htn
 
-/-- `SampleIndex::new` on a strictly increasing list that starts with 0 and stays below the universe:
-succeeds in both modes (given the no-overflow condition of `parameters`) and establishes `Valid` -/
+/-- the repaired `SampleIndex::new` on a **non-decreasing** list (duplicates allowed) that starts with 0 and
+stays below the universe: succeeds in both modes and establishes `Valid`; sample 0 is 0.  The only size
+conditions left are that of the first rounding, `values.length + 8 < 2^64`, and that the universe size is
+a `usize` (any `univ < 2^64`: nothing relates it to `2^63` any more). -/
 theorem new_valid (m : Mode) (rest : List Nat) (univ : Nat)
-    (hs : StrictInc (0 :: rest)) (hall : ∀ v ∈ (0 :: rest), v < univ)
-    (hno : NoOverflow (0 :: rest).length univ) :
-    ∃ s, SampleIndex.new m (0 :: rest) univ = ok s ∧ s.Valid (0 :: rest) univ := by
+    (hs : NonDec (0 :: rest)) (hall : ∀ v ∈ (0 :: rest), v < univ)
+    (hno : NoOverflow (0 :: rest).length) (hu64 : univ < U64) :
+    ∃ s, SampleIndex.new m (0 :: rest) univ = ok s ∧ s.Valid (0 :: rest) univ ∧
+      (s.samples.getRaw 0).toNat = 0 := by
   generalize hvals : (0 :: rest) = values at *
   have hlen1 : 1 ≤ values.length := by rw [← hvals]; simp
   have hu : 1 ≤ univ := by have := hall 0 (by rw [← hvals]; simp); omega
   obtain ⟨p1, p2, p3, p4, p5⟩ := parameters_spec hlen1 hu
-  obtain ⟨n1, n2, n3⟩ := hno
+  have n1 : values.length + 8 < U64 := hno
   have hll : values.length - 1 < 2 ^ 64 := by rw [← U64_eq]; omega
   obtain ⟨b1, b2, b3, _⟩ := bitLen_spec_rl (values.length - 1) hll
   obtain ⟨smp, es, w1, w2, w3, w4⟩ := IntVec.withLen_spec_rl (nsam values.length univ)
     (bitLen (BitVec.ofNat 64 (values.length - 1))) 0 b1 b2
   have h0 : ∀ h : 0 < values.length, values[0] = 0 := by intro h; subst hvals; rfl
   have hfill := fill_spec m hs (div0 values.length univ) (nsam values.length univ) _ b3 b2 (by omega)
-    (nsam values.length univ - 1) 1 0 smp hlen1 (by omega) (by rw [h0]; omega) w1 w2 w3 (by
-      intro t ht
-      have ht0 : t = 0 := by omega
-      subst ht0
-      have z : ∀ k, (0 : Word).toNat % 2 ^ k = 0 := fun k => Nat.zero_mod _
-      rw [IntVec.getRaw_of_items (by omega) (by rw [w4, w2]), z, Nat.zero_mul]
-      refine ⟨hlen1, by rw [h0]; omega, ?_⟩
-      intro j hj hj0
-      have := hs 0 j hj0 hj
-      omega)
-  obtain ⟨smp', o', ho', ef, l1, pf⟩ := hfill
+    (nsam values.length univ - 1) 1 0 smp hlen1 (by omega) (by rw [h0]; omega) w1 w2 w3
+  obtain ⟨smp', o', ho', ef, l1, qf, pf⟩ := hfill
   have hrange : (List.range (nsam values.length univ)).drop 1 = List.range' 1 (nsam values.length univ - 1) := by
     rw [List.range_eq_range', List.drop_range']
   have hprev : values[o'] < univ := hall _ (List.getElem_mem _)
-  refine ⟨⟨values.length, div0 values.length univ, smp'⟩, ?_, ⟨rfl, by omega, p1, by rw [l1]; show _ = (univ - 1) / div0 values.length univ + 1; omega, ?_⟩⟩
+  have hz : (smp'.getRaw 0).toNat = 0 := by
+    have z : ∀ k, (0 : Word).toNat % 2 ^ k = 0 := fun k => Nat.zero_mod _
+    rw [qf 0 (by omega), IntVec.getRaw_of_items (by omega) (by rw [w4, w2]), z]
+  refine ⟨⟨values.length, div0 values.length univ, smp'⟩, ?_,
+    ⟨rfl, by omega, p1, by rw [l1]; show _ = (univ - 1) / div0 values.length univ + 1; omega, ?_, ?_⟩, hz⟩
   · subst hvals
     unfold SampleIndex.new
     simp only []
-    rw [if_neg (by omega), parameters_ok m hlen1 hu ⟨n1, n2, n3⟩]
+    rw [if_neg (by omega), parameters_ok m hlen1 hu n1]
     simp only [bind_ok]
     rw [es]
     simp only [bind_ok, ne_eq, not_true_eq_false, if_false]
@@ -1109,19 +1362,56 @@ theorem new_valid (m : Mode) (rest : List Nat) (univ : Nat)
       ok (smp', (0 :: rest)[o']) from ef]
     simp only [bind_ok]
     rw [if_pos hprev]; rfl
-  · intro i hi
-    exact pf i (by rw [← l1]; exact hi)
+  · show ∃ hk : (smp'.getRaw 0).toNat < values.length, values[(smp'.getRaw 0).toNat] ≤ 0
+    have hk : (smp'.getRaw 0).toNat < values.length := by rw [hz]; exact hlen1
+    refine ⟨hk, ?_⟩
+    have : values[(smp'.getRaw 0).toNat] = values[0] := by congr 1
+    rw [this, h0]; exact Nat.le_refl _
+  · intro i hi1 hi
+    exact pf i hi1 (by rw [← l1]; exact hi)
 
-/-- `new` followed by `range`: the contract holds for every `x` below the universe -/
-theorem new_range (m : Mode) (rest : List Nat) (univ : Nat)
+/-- the strictly increasing case (all the code as first written accepted) as a corollary: then *every*
+sample is the index of the last value `≤ i * divisor` -/
+theorem new_valid_strict (m : Mode) (rest : List Nat) (univ : Nat)
     (hs : StrictInc (0 :: rest)) (hall : ∀ v ∈ (0 :: rest), v < univ)
-    (hno : NoOverflow (0 :: rest).length univ) :
+    (hno : NoOverflow (0 :: rest).length) (hu64 : univ < U64) :
+    ∃ s, SampleIndex.new m (0 :: rest) univ = ok s ∧ s.Valid (0 :: rest) univ ∧
+      ∀ i, i < s.samples.len → LastLE (0 :: rest) (i * s.divisor) (s.samples.getRaw i).toNat := by
+  obtain ⟨s, e, hv, _⟩ := new_valid m rest univ hs.nonDec hall hno hu64
+  exact ⟨s, e, hv, fun i hi => hv.sample_strict hs i hi⟩
+
+/-- `new` followed by `range`: for **non-decreasing** `values` with `values[0] = 0`, all `< univ`, the
+contract holds for every `x` below the universe: `range s x = ok (lo, hi)`, `lo < hi ≤ values.length`,
+`values[lo] ≤ x`, and `hi = values.length ∨ x < values[hi]` -/
+theorem new_range (m : Mode) (rest : List Nat) (univ : Nat)
+    (hs : NonDec (0 :: rest)) (hall : ∀ v ∈ (0 :: rest), v < univ)
+    (hno : NoOverflow (0 :: rest).length) (hu64 : univ < U64) :
     ∃ s, SampleIndex.new m (0 :: rest) univ = ok s ∧ ∀ x, x < univ →
       ∃ lo hi, s.range x = ok (lo, hi) ∧ lo < hi ∧ hi ≤ (0 :: rest).length ∧
         (∃ h : lo < (0 :: rest).length, (0 :: rest)[lo] ≤ x) ∧
         (hi = (0 :: rest).length ∨ ∃ h : hi < (0 :: rest).length, x < (0 :: rest)[hi]) := by
-  obtain ⟨s, e, hv⟩ := new_valid m rest univ hs hall hno
+  obtain ⟨s, e, hv, _⟩ := new_valid m rest univ hs hall hno hu64
   exact ⟨s, e, fun x hx => range_spec hv x hx⟩
+
+/-- the strict version as a corollary -/
+theorem new_range_strict (m : Mode) (rest : List Nat) (univ : Nat)
+    (hs : StrictInc (0 :: rest)) (hall : ∀ v ∈ (0 :: rest), v < univ)
+    (hno : NoOverflow (0 :: rest).length) (hu64 : univ < U64) :
+    ∃ s, SampleIndex.new m (0 :: rest) univ = ok s ∧ ∀ x, x < univ →
+      ∃ lo hi, s.range x = ok (lo, hi) ∧ lo < hi ∧ hi ≤ (0 :: rest).length ∧
+        (∃ h : lo < (0 :: rest).length, (0 :: rest)[lo] ≤ x) ∧
+        (hi = (0 :: rest).length ∨ ∃ h : hi < (0 :: rest).length, x < (0 :: rest)[hi]) :=
+  new_range m rest univ hs.nonDec hall hno hu64
+
+/-- a concrete index over values with duplicates (which the code as first written rejected): `new`
+succeeds in both modes and `range` brackets the probes -/
+theorem new_duplicates_example :
+    (do let s ← SampleIndex.new .checked [0, 0, 3, 3, 3, 9, 9, 20, 20] 21
+        let r0 ← s.range 0
+        let r1 ← s.range 5
+        let r2 ← s.range 20
+        return (s.divisor, s.samples.items, r0, r1, r2)) = ok (11, [0, 6], (0, 7), (0, 7), (6, 9)) := by
+  decide
 
 end SampleIndex
 
@@ -1886,6 +2176,53 @@ theorem trySet_abs (m : Mode) {b b' : RLBuilder} {B : List Bool} {done : List (L
         show b.len + (start - b.len) = start by omega, hF, List.append_assoc]
       rfl
 
+/-- the bits appended by `set_len(n)`: zeros up to the new length (nothing when `n ≤ len`) -/
+def setLenBits (b : RLBuilder) (n : Nat) : List Bool := List.replicate (n - b.len) false
+
+/-- the repaired `set_len` keeps the full abstraction: it appends zeros to the described bit sequence, the
+pending run (if any) is closed -/
+theorem setLen_abs (m : Mode) {b b' : RLBuilder} {B : List Bool} {done : List (List (Nat × Nat))}
+    {cur : List (Nat × Nat)} (h : Abs b B done cur) (n : Nat) (hn : n < U64)
+    (hs : b.setLen m n = ok b') :
+    ∃ done' cur', Abs b' (B ++ setLenBits b n) done' cur' := by
+  obtain ⟨hi, hd, hl, hcnt, hrn⟩ := h
+  have hinv' := setLen_inv m hi n hn hs
+  unfold setLen at hs
+  by_cases hc : n > b.len
+  · rw [if_pos hc] at hs
+    obtain ⟨b1, done', cur', e, hd1, l1, l2, l3, hfl⟩ := flush_dinv m hi hd
+    have hr2 : b1.run.2 = 0 := by rw [l3]
+    rw [e, bind_ok] at hs
+    injection hs with hs; subst hs
+    refine ⟨done', cur', hinv', dinv_congr hd1 rfl rfl (by show b1.ones - 0 = b1.ones - b1.run.2; omega) rfl,
+      by simp [setLenBits, hl]; omega,
+      by simp [setLenBits, List.count_append, List.count_replicate, hcnt, l2], ?_⟩
+    intro bs
+    have hB : (B ++ setLenBits b n) ++ bs = B ++ (List.replicate (n - b.len) false ++ bs) := by
+      simp [setLenBits]
+    have i1 := hi.tail_le
+    rw [hB, hrn, hfl]
+    have hpend : pend { b1 with len := n, run := (n, 0) } = none := by unfold pend; rw [if_pos rfl]
+    rw [hpend]
+    show _ = _ ++ runsOf bs n none
+    unfold pend
+    by_cases hr0 : b.run.2 = 0
+    · rw [if_pos hr0, if_pos hr0, List.append_nil, runsOf_false_none,
+        show b.len + (n - b.len) = n by omega]
+    · have ht : span (done.flatten ++ cur) = b.tail := by rw [span_append, hd.tail]
+      have hF : absRuns 0 (done.flatten ++ cur ++ [(b.run.1 - b.tail, b.run.2)]) =
+          absRuns 0 (done.flatten ++ cur) ++ [b.run] := by
+        rw [absRuns_append, ht]
+        simp only [absRuns]
+        rw [show 0 + b.tail + (b.run.1 - b.tail) = b.run.1 by omega]
+      rw [if_neg hr0, if_neg hr0, runsOf_false_some _ (by omega),
+        show b.len + (n - b.len) = n by omega, hF, List.append_assoc]
+      rfl
+  · rw [if_neg hc] at hs; injection hs with hs; subst hs
+    have hz : n - b.len = 0 := by omega
+    refine ⟨done, cur, hi, hd, by simp [setLenBits, hz, hl], by simp [setLenBits, hz, hcnt], ?_⟩
+    intro bs; simpa [setLenBits, hz] using hrn bs
+
 end RLBuilder
 
 /-! ## 7c. `From<RLBuilder>` and the layout of the result -/
@@ -2200,10 +2537,12 @@ theorem runCalls_abs (m : Mode) : ∀ (calls : List (Nat × Nat)) (b b' : RLBuil
     rw [this] at ha1
     exact ih b1 b' _ done1 cur1 (fun c' hc' => hc c' (by simp [hc'])) ha1 h2
 
-/-- **round trip (item 7)**: build with any sequence of `try_set` calls (no `set_len`), convert, iterate:
+/-- **round trip (item 7)**: build with any sequence of `try_set` calls (see `build_iterate_calls` for
+histories with `set_len`), convert, iterate:
 the iterator yields exactly `maximalRuns` of the described bit sequence, in both arithmetic modes, with
 `pos = (ones so far, end of run)` after every run; `len`, `ones` and the final position agree with it.
-The success of the conversion is a hypothesis: see `zeroIdx_ofBuilder_panics` below. -/
+The success of the conversion is a hypothesis (with the code as first written it could fail on a valid
+builder: see `zeroIdx_*` below). -/
 theorem build_iterate (m : Mode) (calls : List (Nat × Nat)) (hc : ∀ c ∈ calls, c.2 < U64)
     (b : RLBuilder) (hb : runCalls m calls {} = ok b) (v : RL) (hv : ofBuilder m b = ok v) :
     let B := calls.foldl specStep []
@@ -2214,15 +2553,102 @@ theorem build_iterate (m : Mode) (calls : List (Nat × Nat)) (hc : ∀ c ∈ cal
   obtain ⟨done, cur, ha⟩ := runCalls_abs m calls {} b [] [] [] hc abs_empty hb
   exact ofBuilder_runs m ha hv
 
-/-! ### an additional finding: `From<RLBuilder>` can panic on a valid builder
+/-! ### the same with `set_len` and `set_bit` calls
 
-`build_iterate` has to *assume* that the conversion succeeds.  It does not always: the select-zero index is
-built from `bits - ones` at the start of each block, and `SampleIndex::new` asserts that its input is
-strictly increasing.  Block 0 always has 0 zeros before it; block 1 also has 0 zeros before it when block 0
-holds nothing but a run starting at bit 0.  That needs a second run whose two codes do not fit into the
-remaining 42 units (gap ≥ 2^63: 22 units, length > 2^60: 21 units), and the assertion is only evaluated when
-there are at least 9 blocks (so that `parameters` asks for 2 samples).  All calls below are accepted, every
-quantity fits in 64 bits (`len < 2^64`), and the rank and select indexes are built without complaint. -/
+`runCalls` / `build_iterate` were stated for `try_set` calls only because `set_len` as first written broke the
+builder invariant (F9).  With the repaired `set_len` the round trip holds for all three kinds of calls. -/
+
+/-- one builder call under the model's current definitions (`bit i` is `try_set(i, 1)`) -/
+def applyCall (m : Mode) (b : RLBuilder) : BCall → Outcome RLBuilder
+  | .set start len => b.trySet m start len
+  | .setLen n => b.setLen m n
+  | .bit i => b.trySet m i 1
+
+/-- the bits described after an accepted call: `try_set(start, len)` appends zeros up to `start` and `len`
+ones, `set_len(n)` appends zeros up to `n`, `set_bit(i)` appends zeros up to `i` and a one -/
+def specCall (B : List Bool) : BCall → List Bool
+  | .set start len => specStep B (start, len)
+  | .setLen n => B ++ List.replicate (n - B.length) false
+  | .bit i => specStep B (i, 1)
+
+/-- the arguments are `usize` values -/
+def callArgsOk : BCall → Prop
+  | .set _ len => len < U64
+  | .setLen n => n < U64
+  | .bit _ => True
+
+def runBCalls (m : Mode) : List BCall → RLBuilder → Outcome RLBuilder
+  | [], b => ok b
+  | c :: cs, b => do let b ← applyCall m b c; runBCalls m cs b
+
+theorem applyCall_abs (m : Mode) {b b' : RLBuilder} {B : List Bool} {done : List (List (Nat × Nat))}
+    {cur : List (Nat × Nat)} (ha : Abs b B done cur) (c : BCall) (hc : callArgsOk c)
+    (h : applyCall m b c = ok b') : ∃ done' cur', Abs b' (specCall B c) done' cur' := by
+  cases c with
+  | set start len =>
+    obtain ⟨done1, cur1, ha1⟩ := trySet_abs m ha start len hc h
+    have : B ++ setBits b start len = specCall B (.set start len) := by
+      unfold setBits specCall specStep; rw [ha.len]
+    rw [this] at ha1; exact ⟨done1, cur1, ha1⟩
+  | setLen n =>
+    obtain ⟨done1, cur1, ha1⟩ := setLen_abs m ha n hc h
+    have : B ++ setLenBits b n = specCall B (.setLen n) := by
+      unfold setLenBits specCall; rw [ha.len]
+    rw [this] at ha1; exact ⟨done1, cur1, ha1⟩
+  | bit i =>
+    obtain ⟨done1, cur1, ha1⟩ := trySet_abs m ha i 1 (by decide) h
+    have : B ++ setBits b i 1 = specCall B (.bit i) := by
+      unfold setBits specCall specStep; rw [ha.len]
+    rw [this] at ha1; exact ⟨done1, cur1, ha1⟩
+
+theorem runBCalls_abs (m : Mode) : ∀ (calls : List BCall) (b b' : RLBuilder) (B : List Bool)
+    (done : List (List (Nat × Nat))) (cur : List (Nat × Nat)),
+    (∀ c ∈ calls, callArgsOk c) → Abs b B done cur → runBCalls m calls b = ok b' →
+    ∃ done' cur', Abs b' (calls.foldl specCall B) done' cur' := by
+  intro calls
+  induction calls with
+  | nil =>
+    intro b b' B done cur _ ha h
+    injection h with h; subst h; exact ⟨done, cur, ha⟩
+  | cons c cs ih =>
+    intro b b' B done cur hc ha h
+    obtain ⟨b1, h1, h2⟩ := Outcome.bind_eq_ok h
+    obtain ⟨done1, cur1, ha1⟩ := applyCall_abs m ha c (hc c (by simp)) h1
+    exact ih b1 b' _ done1 cur1 (fun c' hc' => hc c' (by simp [hc'])) ha1 h2
+
+/-- **round trip with `set_len`**: build with any sequence of accepted `try_set` / `set_len` / `set_bit`
+calls, convert, iterate: the iterator yields exactly `maximalRuns` of the described bit sequence, in both
+arithmetic modes; `len`, `ones` and the final position agree with it -/
+theorem build_iterate_calls (m : Mode) (calls : List BCall) (hc : ∀ c ∈ calls, callArgsOk c)
+    (b : RLBuilder) (hb : runBCalls m calls {} = ok b) (v : RL) (hv : ofBuilder m b = ok v) :
+    let B := calls.foldl specCall []
+    v.len = B.length ∧ v.ones = B.count true ∧
+    ∃ it0 e endPos, v.runIter = ok it0 ∧
+      collect m v ((maximalRuns B).length + 1) it0 = ok (withPos 0 (maximalRuns B), e) ∧
+      e.pos = (B.count true, endPos) ∧ endPos ≤ B.length := by
+  obtain ⟨done, cur, ha⟩ := runBCalls_abs m calls {} b [] [] [] hc abs_empty hb
+  exact ofBuilder_runs m ha hv
+
+/-- F9 end to end: `set_len(10)`, `try_set(10, 5)`, convert, iterate.  With the repaired `set_len` the
+vector has length 15 and its only run is `(10, 5)` (the old code produced the run `(0, 5)`) -/
+theorem F9_fixed_roundtrip :
+    (do let b ← runBCalls .checked [.setLen 10, .set 10 5] {}
+        let v ← ofBuilder .checked b
+        let it ← v.runIter
+        let (rs, _) ← collect .checked v 2 it
+        return (v.len, v.ones, rs.map (·.1))) = ok (15, 5, [(10, 5)]) := by decide +kernel
+
+/-! ### a former finding (F10): `From<RLBuilder>` used to panic on a valid builder
+
+`build_iterate` has to *assume* that the conversion succeeds.  With the code as first written it did not
+always: the select-zero index is built from `bits - ones` at the start of each block, and `SampleIndex::new`
+asserted that its input is *strictly* increasing (`consumeOld`).  Block 0 always has 0 zeros before it;
+block 1 also has 0 zeros before it when block 0 holds nothing but a run starting at bit 0.  That needs a
+second run whose two codes do not fit into the remaining 42 units (gap ≥ 2^63: 22 units, length > 2^60:
+21 units), and the assertion is only evaluated when there are at least 9 blocks (so that `parameters` asks
+for 2 samples).  All calls below are accepted, every quantity fits in 64 bits (`len < 2^64`), and the rank
+and select indexes are built without complaint.  The repaired `SampleIndex::new` asserts non-decreasing
+values (`consume`), and the same builder now converts successfully. -/
 
 def zeroIdxCalls : List (Nat × Nat) :=
   (0, 2 ^ 60 + 1) :: (2 ^ 60 + 1 + 2 ^ 63, 2 ^ 60 + 1) ::
@@ -2235,16 +2661,23 @@ theorem zeroIdx_builder_ok :
         return (b.len < U64, b.samples.size, (b.samples.toList.map (fun p => p.2 - p.1)).take 3)) =
       ok (true, 9, [0, 0, 2 ^ 63 + 10]) := by decide +kernel
 
-/-- … and the conversion panics on the strict-monotonicity assertion of `SampleIndex::new`, in both modes -/
-theorem zeroIdx_ofBuilder_panics :
+/-- … and with the repaired `SampleIndex::new` the conversion now **succeeds**, in both modes (it used to
+panic on the strict-monotonicity assertion): the vector has the builder's `len` and `ones`, 9 blocks, and a
+select-zero index with two samples -/
+theorem zeroIdx_ofBuilder_ok :
     (do let b ← runCalls .checked zeroIdxCalls {}
         let v ← ofBuilder .checked b
-        return v.len) = fault (.panic .assert) ∧
+        return (v.len, v.ones, v.blocks, v.selectZeroIndex.divisor, v.selectZeroIndex.samples.items)) =
+      ok (2 ^ 63 + 2 ^ 61 + 408, 2 ^ 61 + 205, 9, 2 ^ 62 + 102, [0, 1]) ∧
     (do let b ← runCalls .wrapping zeroIdxCalls {}
         let v ← ofBuilder .wrapping b
-        return v.len) = fault (.panic .assert) := by decide +kernel
+        return (v.len, v.ones, v.blocks, v.selectZeroIndex.divisor, v.selectZeroIndex.samples.items)) =
+      ok (2 ^ 63 + 2 ^ 61 + 408, 2 ^ 61 + 205, 9, 2 ^ 62 + 102, [0, 1]) := by
+  constructor
+  · decide +kernel
+  · decide +kernel
 
-/-- it is the select-zero index, not the other two -/
+/-- all three sample indexes are built now -/
 theorem zeroIdx_which :
     (do let b ← runCalls .checked zeroIdxCalls {}
         let b ← b.flush .checked
@@ -2253,7 +2686,33 @@ theorem zeroIdx_which :
         let z ← b.countZeros .checked
         return ((SampleIndex.new .checked (sl.map (·.2)) b.len).isOk,
                 (SampleIndex.new .checked (sl.map (·.1)) b.ones).isOk,
-                (SampleIndex.new .checked zs z).isOk)) = ok (true, true, false) := by decide +kernel
+                (SampleIndex.new .checked zs z).isOk)) = ok (true, true, true) := by decide +kernel
+
+/-- what went wrong with the code as first written, on the very same data: the zero counts at the block
+starts are `0, 0, 2^63 + 10, …` (non-decreasing, not strictly increasing); `parameters` asks for 2 samples
+with divisor `2^62 + 102`; the inner loop of `new` for sample 1 meets the duplicate `0` below the threshold:
+the old loop (`consumeOld`, strict assertion) panics, the repaired loop consumes it and stops at index 1 -/
+theorem zeroIdx_old_loop_panics :
+    (do let b ← runCalls .checked zeroIdxCalls {}
+        let b ← b.flush .checked
+        let zs ← b.samples.toList.mapM (fun p => subM .checked p.2 p.1)
+        let z ← b.countZeros .checked
+        let (ns, d) ← SampleIndex.parameters .checked zs.length z
+        return (zs.take 3, ns, d)) = ok ([0, 0, 2 ^ 63 + 10], 2, 2 ^ 62 + 102) ∧
+    (do let b ← runCalls .checked zeroIdxCalls {}
+        let b ← b.flush .checked
+        let zs ← b.samples.toList.mapM (fun p => subM .checked p.2 p.1)
+        let r ← SampleIndex.consumeOld (2 ^ 62 + 102) zs.length 0 0 (zs.drop 1)
+        return r.1) = fault (.panic .assert) ∧
+    (do let b ← runCalls .checked zeroIdxCalls {}
+        let b ← b.flush .checked
+        let zs ← b.samples.toList.mapM (fun p => subM .checked p.2 p.1)
+        let r ← SampleIndex.consume (2 ^ 62 + 102) zs.length 0 0 (zs.drop 1)
+        return (r.1, r.2.1, r.2.2.length)) = ok (1, 0, 7) := by
+  refine ⟨?_, ?_, ?_⟩
+  · decide +kernel
+  · decide +kernel
+  · decide +kernel
 
 end RL
 
